@@ -1,4 +1,437 @@
 /- helper lemmas: truncated streams -/
 import TinyHttpModel.WireSpec
+import TinyHttpModel.Lemmas.Loop
 namespace TH
+
+/-! ### findCRLF / readLine: shape of the split, stability under extension -/
+
+theorem findCRLF_split : ∀ (bs l r : Bytes), findCRLF bs = some (l, r) → bs = l ++ 13 :: 10 :: r := by
+  intro bs
+  induction bs with
+  | nil => intro l r h; simp [findCRLF] at h
+  | cons b rest ih =>
+    intro l r h
+    unfold findCRLF at h
+    split at h
+    · cases h; rfl
+    · cases hr : findCRLF rest with
+      | none => simp [hr] at h
+      | some q =>
+        obtain ⟨l', r'⟩ := q
+        simp only [hr, Option.some.injEq, Prod.mk.injEq] at h
+        obtain ⟨rfl, rfl⟩ := h
+        rw [ih l' r' hr]; rfl
+
+theorem findCRLF_crlf (r : Bytes) : findCRLF (13 :: 10 :: r) = some ([], r) := by
+  simp [findCRLF]
+
+theorem findCRLF_other (b : Nat) (rest : Bytes) (h : ¬ (b = 13 ∧ rest.head? = some 10)) :
+    findCRLF (b :: rest) = (findCRLF rest).map (fun q => (b :: q.1, q.2)) := by
+  rw [findCRLF]
+  · cases findCRLF rest with
+    | none => rfl
+    | some q => rfl
+  · intro rest' hb hr; apply h; simp [hb, hr]
+
+theorem findCRLF_ext : ∀ (bs x l r : Bytes), findCRLF bs = some (l, r) → findCRLF (bs ++ x) = some (l, r ++ x) := by
+  intro bs
+  induction bs with
+  | nil => intro x l r h; simp [findCRLF] at h
+  | cons b rest ih =>
+    intro x l r h
+    by_cases hc : b = 13 ∧ rest.head? = some 10
+    · obtain ⟨rfl, h10⟩ := hc
+      cases rest with
+      | nil => simp at h10
+      | cons c rest' =>
+        simp at h10; subst h10
+        rw [findCRLF_crlf] at h
+        cases h
+        simp [findCRLF_crlf]
+    · rw [findCRLF_other b rest hc] at h
+      have hc' : ¬ (b = 13 ∧ (rest ++ x).head? = some 10) := by
+        intro ⟨h1, h2⟩
+        apply hc
+        refine ⟨h1, ?_⟩
+        cases rest with
+        | nil => simp [findCRLF] at h
+        | cons c rest' => simpa using h2
+      rw [List.cons_append, findCRLF_other b (rest ++ x) hc']
+      cases hr : findCRLF rest with
+      | none => simp [hr] at h
+      | some q =>
+        obtain ⟨l', r'⟩ := q
+        simp only [hr, Option.map_some, Option.some.injEq, Prod.mk.injEq] at h
+        obtain ⟨rfl, rfl⟩ := h
+        rw [ih x l' r' hr]; rfl
+
+theorem readLine_line_split (bs : Bytes) (fin : EndState) (l r : Bytes) (h : readLine bs fin = .line l r) :
+    bs = l ++ 13 :: 10 :: r := by
+  unfold readLine at h
+  cases hf : findCRLF bs with
+  | none => simp [hf] at h
+  | some q =>
+    obtain ⟨l', r'⟩ := q
+    simp only [hf] at h
+    split at h
+    · cases h; exact findCRLF_split _ _ _ hf
+    · cases h
+
+theorem readLine_line_ext (bs x : Bytes) (fin fin' : EndState) (l r : Bytes) (h : readLine bs fin = .line l r) :
+    readLine (bs ++ x) fin' = .line l (r ++ x) := by
+  unfold readLine at h ⊢
+  cases hf : findCRLF bs with
+  | none => simp [hf] at h
+  | some q =>
+    obtain ⟨l', r'⟩ := q
+    simp only [hf] at h
+    rw [findCRLF_ext _ x _ _ hf]
+    split at h
+    · rename_i ha
+      cases h; simp [ha]
+    · cases h
+
+theorem readLine_stop_closed (bs : Bytes) (fin : EndState) (s : Stop) (hf : fin ≠ .open)
+    (h : readLine bs fin = .stop s) : s ≠ .pending := by
+  unfold readLine at h
+  split at h
+  · split at h <;> cases h
+  · cases h; cases fin <;> simp_all [EndState.stop]
+
+/-! ### readHeaders -/
+
+/-- with enough fuel, the header loop only reports "pending" on an open stream. -/
+theorem readHeaders_not_pending : ∀ (fuel : Nat) (ver : Version) (bs : Bytes) (fin : EndState),
+    fin ≠ .open → bs.length < fuel → readHeaders fuel ver bs fin ≠ .error (.stop .pending) := by
+  intro fuel
+  induction fuel with
+  | zero => intro ver bs fin _ hl; omega
+  | succ fuel ih =>
+    intro ver bs fin hf hl
+    unfold readHeaders
+    cases hr : readLine bs fin with
+    | stop s =>
+      have := readLine_stop_closed bs fin s hf hr
+      simp only; intro h; cases h; exact this rfl
+    | notAscii r => simp
+    | line l rest =>
+      simp only
+      split
+      · simp
+      · cases parseHeaderLine l with
+        | none => simp
+        | some hd =>
+          simp only
+          have hs := readLine_line_split bs fin l rest hr
+          have hlen : rest.length < fuel := by
+            have := congrArg List.length hs
+            simp at this; omega
+          have := ih ver rest fin hf hlen
+          cases hrec : readHeaders fuel ver rest fin with
+          | ok q => simp
+          | error e =>
+            simp only
+            intro h; cases h; exact this hrec
+
+theorem readHead_not_pending (bs : Bytes) (fin : EndState) (hf : fin ≠ .open) :
+    readHead bs fin ≠ .error (.stop .pending) := by
+  unfold readHead
+  cases hr : readLine bs fin with
+  | stop s =>
+    have := readLine_stop_closed bs fin s hf hr
+    simp only; intro h; cases h; exact this rfl
+  | notAscii r => simp
+  | line l rest =>
+    simp only
+    cases parseRequestLine l with
+    | none => simp
+    | some q =>
+      obtain ⟨m, p, v⟩ := q
+      simp only
+      have := readHeaders_not_pending (rest.length + 1) v rest fin hf (by omega)
+      cases hrec : readHeaders (rest.length + 1) v rest fin with
+      | ok q => simp
+      | error e =>
+        simp only
+        intro h; cases h; exact this hrec
+
+/-- what a successful header loop consumed ends with the CR LF of the empty line, right after the
+    CR LF that precedes its input. -/
+theorem readHeaders_ok_split : ∀ (fuel : Nat) (ver : Version) (bs : Bytes) (fin : EndState) (hs : List Header)
+    (r : Bytes), readHeaders fuel ver bs fin = .ok (hs, r) →
+    ∃ pre, 13 :: 10 :: bs = pre ++ [13, 10, 13, 10] ++ r := by
+  intro fuel
+  induction fuel with
+  | zero => intro ver bs fin hs r h; simp [readHeaders] at h
+  | succ fuel ih =>
+    intro ver bs fin hs r h
+    unfold readHeaders at h
+    cases hr : readLine bs fin with
+    | stop s => simp [hr] at h
+    | notAscii r => simp [hr] at h
+    | line l rest =>
+      have hsplit := readLine_line_split bs fin l rest hr
+      simp only [hr] at h
+      split at h
+      · rename_i hl
+        cases h
+        have : l = [] := by simpa using hl
+        subst this
+        exact ⟨[], by simp [hsplit]⟩
+      · cases hp : parseHeaderLine l with
+        | none => simp [hp] at h
+        | some hd =>
+          simp only [hp] at h
+          cases hrec : readHeaders fuel ver rest fin with
+          | error e => simp [hrec] at h
+          | ok q =>
+            obtain ⟨hs', r'⟩ := q
+            simp only [hrec, Except.ok.injEq, Prod.mk.injEq] at h
+            obtain ⟨_, rfl⟩ := h
+            obtain ⟨pre, hpre⟩ := ih ver rest fin hs' r' hrec
+            refine ⟨13 :: 10 :: l ++ pre, ?_⟩
+            rw [hsplit]
+            simp only [List.append_assoc, List.cons_append, List.nil_append] at hpre ⊢
+            rw [hpre]
+
+theorem readHead_ok_split (bs : Bytes) (fin : EndState) (hd : Head) (r : Bytes)
+    (h : readHead bs fin = .ok (hd, r)) : ∃ pre, bs = pre ++ [13, 10, 13, 10] ++ r := by
+  unfold readHead at h
+  cases hr : readLine bs fin with
+  | stop s => simp [hr] at h
+  | notAscii r => simp [hr] at h
+  | line l rest =>
+    have hsplit := readLine_line_split bs fin l rest hr
+    simp only [hr] at h
+    cases hp : parseRequestLine l with
+    | none => simp [hp] at h
+    | some q =>
+      obtain ⟨m, p, v⟩ := q
+      simp only [hp] at h
+      cases hrec : readHeaders (rest.length + 1) v rest fin with
+      | error e => simp [hrec] at h
+      | ok q =>
+        obtain ⟨hs', r'⟩ := q
+        simp only [hrec, Except.ok.injEq, Prod.mk.injEq] at h
+        obtain ⟨_, rfl⟩ := h
+        obtain ⟨pre, hpre⟩ := readHeaders_ok_split _ v rest fin hs' r' hrec
+        refine ⟨l ++ pre, ?_⟩
+        rw [hsplit]
+        simp only [List.append_assoc, List.cons_append, List.nil_append] at hpre ⊢
+        rw [hpre]
+
+/-- success of the header loop is stable under more fuel, more bytes, and any end state. -/
+theorem readHeaders_ok_ext : ∀ (fuel k : Nat) (ver : Version) (bs x : Bytes) (fin fin' : EndState)
+    (hs : List Header) (r : Bytes), readHeaders fuel ver bs fin = .ok (hs, r) →
+    readHeaders (fuel + k) ver (bs ++ x) fin' = .ok (hs, r ++ x) := by
+  intro fuel
+  induction fuel with
+  | zero => intro k ver bs x fin fin' hs r h; simp [readHeaders] at h
+  | succ fuel ih =>
+    intro k ver bs x fin fin' hs r h
+    have hk : fuel + 1 + k = (fuel + k) + 1 := by omega
+    rw [hk]
+    unfold readHeaders at h ⊢
+    cases hr : readLine bs fin with
+    | stop s => simp [hr] at h
+    | notAscii r => simp [hr] at h
+    | line l rest =>
+      rw [readLine_line_ext bs x fin fin' l rest hr]
+      simp only [hr] at h ⊢
+      split at h
+      · rename_i hl
+        cases h
+        simp [hl]
+      · rename_i hl
+        simp only [hl]
+        cases hp : parseHeaderLine l with
+        | none => simp [hp] at h
+        | some hd =>
+          simp only [hp] at h ⊢
+          cases hrec : readHeaders fuel ver rest fin with
+          | error e => simp [hrec] at h
+          | ok q =>
+            obtain ⟨hs', r'⟩ := q
+            simp only [hrec, Except.ok.injEq, Prod.mk.injEq] at h
+            obtain ⟨rfl, rfl⟩ := h
+            rw [ih k ver rest x fin fin' hs' r' hrec]
+            simp
+
+theorem readHead_ok_ext (p x : Bytes) (h : Head) (r : Bytes) (fin fin' : EndState)
+    (hp : readHead p fin = .ok (h, r)) : readHead (p ++ x) fin' = .ok (h, r ++ x) := by
+  unfold readHead at hp ⊢
+  cases hr : readLine p fin with
+  | stop s => simp [hr] at hp
+  | notAscii r => simp [hr] at hp
+  | line l rest =>
+    rw [readLine_line_ext p x fin fin' l rest hr]
+    simp only [hr] at hp ⊢
+    cases hpl : parseRequestLine l with
+    | none => simp [hpl] at hp
+    | some q =>
+      obtain ⟨m, u, v⟩ := q
+      simp only [hpl] at hp ⊢
+      cases hrec : readHeaders (rest.length + 1) v rest fin with
+      | error e => simp [hrec] at hp
+      | ok q =>
+        obtain ⟨hs', r'⟩ := q
+        simp only [hrec, Except.ok.injEq, Prod.mk.injEq] at hp
+        obtain ⟨rfl, rfl⟩ := hp
+        have hlen : (rest ++ x).length + 1 = (rest.length + 1) + x.length := by
+          simp; omega
+        rw [hlen, readHeaders_ok_ext _ x.length v rest x fin fin' hs' r' hrec]
+
+/-! ### body reads on a closed stream -/
+
+theorem readChunkSize_stop_open (bs : Bytes) (fin : EndState) (s : Stop) (hf : fin ≠ .open) :
+    readChunkSize bs fin ≠ .stop s := by
+  have hb : (fin == EndState.open) = false := by cases fin <;> simp_all
+  unfold readChunkSize
+  simp only [hb]
+  repeat' split
+  all_goals simp_all
+
+theorem expectCRLF_error_open (bs : Bytes) (fin : EndState) (s : Stop) (hf : fin ≠ .open) :
+    expectCRLF bs fin ≠ some (.error s) := by
+  have hb : (fin == EndState.open) = false := by cases fin <;> simp_all
+  unfold expectCRLF
+  simp only [hb]
+  repeat' split
+  all_goals simp_all
+
+theorem stop_closed (fin : EndState) (hf : fin ≠ .open) : fin.stop = .eof ∨ fin.stop = .reset := by
+  cases fin <;> simp_all [EndState.stop]
+
+
+theorem read_chunked_some_not_pending (c want : Nat) (bs : Bytes) (fin : EndState)
+    (hf : fin ≠ .open) : ((Body.chunked (some c)).read want bs fin).1 ≠ .pending := by
+  have hs := stop_closed fin hf
+  have h2 := fun bs s => expectCRLF_error_open bs fin s hf
+  unfold Body.read
+  simp only
+  cases bs with
+  | nil => rcases hs with h | h <;> simp [h]
+  | cons x xs =>
+    simp only
+    split
+    · simp
+    · split
+      · split <;> simp_all
+      · simp
+
+theorem read_chunked_none_not_pending (want : Nat) (bs : Bytes) (fin : EndState)
+    (hf : fin ≠ .open) : ((Body.chunked none).read want bs fin).1 ≠ .pending := by
+  have h1 := fun s => readChunkSize_stop_open bs fin s hf
+  have h2 := fun bs s => expectCRLF_error_open bs fin s hf
+  cases hrc : readChunkSize bs fin with
+  | stop s => exact absurd hrc (h1 s)
+  | bad r => simp [Body.read, hrc]
+  | ok c r =>
+    cases c with
+    | zero =>
+      cases he : expectCRLF r fin with
+      | none => simp [Body.read, hrc, he]
+      | some q =>
+        cases q with
+        | ok r' => simp [Body.read, hrc, he]
+        | error s => exact absurd he (h2 r s)
+    | succ c =>
+      have : (Body.chunked none).read want bs fin = (Body.chunked (some (c + 1))).read want r fin := by
+        simp [Body.read, hrc]
+      rw [this]
+      exact read_chunked_some_not_pending _ _ _ _ hf
+
+theorem Body.read_not_pending (b : Body) (want : Nat) (bs : Bytes) (fin : EndState)
+    (hf : fin ≠ .open) : (b.read want bs fin).1 ≠ .pending := by
+  have hs := stop_closed fin hf
+  cases b with
+  | done => simp [Body.read]
+  | failed => simp [Body.read]
+  | cursor d => simp only [Body.read]; split <;> simp
+  | raw =>
+    simp only [Body.read]
+    split
+    · rcases hs with h | h <;> simp [h]
+    · simp
+  | limited rem =>
+    simp only [Body.read]
+    split
+    · simp
+    · split
+      · rcases hs with h | h <;> simp [h]
+      · simp
+  | chunked ic =>
+    cases ic with
+    | none => exact read_chunked_none_not_pending _ _ _ hf
+    | some c => exact read_chunked_some_not_pending _ _ _ _ hf
+
+theorem Body.readUpTo_not_pending : ∀ (fuel : Nat) (b : Body) (buf total : Nat) (bs : Bytes) (fin : EndState),
+    fin ≠ .open → (Body.readUpTo fuel b buf total bs fin).2.1 ≠ some .pending := by
+  intro fuel
+  induction fuel with
+  | zero => intro b buf total bs fin hf; simp [Body.readUpTo]
+  | succ fuel ih =>
+    intro b buf total bs fin hf
+    unfold Body.readUpTo
+    split
+    · simp
+    · have hr := Body.read_not_pending b (min buf total) bs fin hf
+      generalize b.read (min buf total) bs fin = R at hr
+      obtain ⟨o, b', bs'⟩ := R
+      cases o with
+      | data d =>
+        simp only
+        split
+        · simp
+        · exact ih b' buf (total - d.length) bs' fin hf
+      | eof => simp
+      | err => simp
+      | pending => exact absurd rfl hr
+
+theorem Body.drain_not_none : ∀ (fuel : Nat) (b : Body) (bs : Bytes) (fin : EndState),
+    fin ≠ .open → Body.drain fuel b bs fin ≠ none := by
+  intro fuel
+  induction fuel with
+  | zero => intro b bs fin hf; simp [Body.drain]
+  | succ fuel ih =>
+    intro b bs fin hf
+    have hb : (fin == EndState.open) = false := by cases fin <;> simp_all
+    cases b with
+    | done => simp [Body.drain]
+    | failed => simp [Body.drain]
+    | cursor d => simp [Body.drain]
+    | raw => simp [Body.drain]
+    | limited rem =>
+      simp only [Body.drain, hb]
+      split <;> simp
+    | chunked ic =>
+      have hr := Body.read_not_pending (.chunked ic) 4096 bs fin hf
+      simp only [Body.drain]
+      generalize (Body.chunked ic).read 4096 bs fin = R at hr
+      obtain ⟨o, b', bs'⟩ := R
+      cases o with
+      | data d => exact ih b' bs' fin hf
+      | eof => simp
+      | err => simp
+      | pending => exact absurd rfl hr
+
+theorem handle_not_blocked (s : St) (h : Head) (fr : Framing) (last : Bool) (a : Action)
+    (body : Body) (bs : Bytes) (fin : EndState) (hf : fin ≠ .open) :
+    (handle s h fr last a body bs fin).2.2 = false := by
+  rw [handle_eq]
+  have hrd : (handleRead a body bs fin).2.1 ≠ some .pending := by
+    unfold handleRead
+    split
+    · exact Body.readUpTo_not_pending _ _ _ _ _ _ hf
+    · simp
+  have hre : readEndOf (handleRead a body bs fin).2.1 ≠ .pending := by
+    generalize (handleRead a body bs fin).2.1 = o at hrd
+    rcases o with _ | (_ | _ | _ | _) <;> simp_all [readEndOf]
+  simp only [if_neg hre]
+  have hd := Body.drain_not_none ((handleRead a body bs fin).2.2.2.length + 2) (handleRead a body bs fin).2.2.1
+    (handleRead a body bs fin).2.2.2 fin hf
+  split
+  · rfl
+  · rename_i hn; exact absurd hn hd
+
 end TH
